@@ -191,6 +191,9 @@ func (c *call) String() string {
 func (c *call) isWrite() bool { return c.kind == "put" || c.kind == "del" || c.kind == "delrange" }
 
 type config struct {
+	timeout time.Duration // client request timeout
+	stall   time.Duration // how long a stalled write batch is held by the server (0 = no stalls in this case)
+	stalled map[int64]bool // shards with a stalled write batch
 	linger  time.Duration
 	maxReq  int
 	nLead   int
@@ -478,6 +481,73 @@ func placeFailures(t *rapid.T, cfg *config, st *genState, calls []*call, fanOutB
 	}
 }
 
+// placeStalls: one or two write calls whose batch the server answers only after the client's request timeout,
+// keeping the stream alive. Some of the following calls are issued while the stall lasts (they queue behind it in
+// the batcher or on the stream), some after a pause that lets it pass.
+func placeStalls(t *rapid.T, cfg *config, calls []*call) {
+	var writes []*call
+	for _, c := range calls {
+		if c.isWrite() && !c.invalid && len(c.shards) == 1 {
+			writes = append(writes, c)
+		}
+	}
+	if len(writes) == 0 {
+		return
+	}
+	n := rapid.IntRange(1, 2).Draw(t, "nStalls")
+	for i := 0; i < n; i++ {
+		c := writes[rapid.IntRange(0, len(writes)-1).Draw(t, "stallWrite")]
+		c.fails[c.shards[0]] = &inject{code: codes.OK, mode: modeStall, times: 1}
+		if cfg.stalled == nil {
+			cfg.stalled = map[int64]bool{}
+		}
+		cfg.stalled[c.shards[0]] = true
+		// the calls right after it: immediately, shortly after the timeout, or after the stall
+		for j := c.idx + 1; j < len(calls) && j <= c.idx+3; j++ {
+			switch rapid.IntRange(0, 3).Draw(t, "afterStall") {
+			case 1:
+				calls[j].pause = cfg.timeout + time.Duration(rapid.IntRange(1, 15).Draw(t, "justAfterTimeoutMs"))*time.Millisecond
+			case 2:
+				calls[j].pause = cfg.stall + 40*time.Millisecond
+			}
+		}
+	}
+}
+
+func callErr(c *call) error {
+	switch c.kind {
+	case "put":
+		if len(c.putRes) > 0 {
+			return c.putRes[0].Err
+		}
+	case "del", "delrange":
+		if len(c.errRes) > 0 {
+			return c.errRes[0]
+		}
+	case "get":
+		if len(c.getRes) > 0 {
+			return c.getRes[0].Err
+		}
+	}
+	return nil
+}
+
+func isTimeout(err error) bool {
+	return err != nil && (errors.Is(err, context.DeadlineExceeded) || strings.Contains(err.Error(), "deadline exceeded") || strings.Contains(err.Error(), "DeadlineExceeded"))
+}
+
+func timedOutBehindStall(c *call, cfg *config) bool {
+	if !isTimeout(callErr(c)) {
+		return false
+	}
+	for _, s := range c.shards {
+		if cfg.stalled[s] {
+			return true
+		}
+	}
+	return false
+}
+
 func hasFanOutGet(calls []*call) bool {
 	for _, c := range calls {
 		if c.kind == "get" && len(c.shards) >= 2 {
@@ -700,6 +770,12 @@ func checkCall(c *call, cfg *config, v *serverView) string {
 		}
 		return ""
 	}
+	if cfg.stall > 0 && isTimeout(callErr(c)) {
+		// slow mode: the request timeout is short, the answer of a batch is held beyond it and the machine may be
+		// loaded: any single-result call may fail with the timeout (exactly-once completion was checked above);
+		// what must hold is that a call that completes successfully carries the result of that very operation
+		return ""
+	}
 	okAll, explained := true, false
 	var failedShards []int64
 	for _, s := range c.shards {
@@ -883,8 +959,16 @@ type c20Stats struct {
 	labels     []string
 }
 
-func runC20(t *rapid.T, fanOutBias bool) {
-	cfg := &config{stored: map[int64][]string{}, lat: map[int64]latency{}}
+func runC20(t *rapid.T, fanOutBias bool) { runC20x(t, fanOutBias, false) }
+
+// runC20x, slow=true: the client's request timeout is short and the server delays the (correct) answer of one or
+// two write batches beyond it while the stream stays alive; later batches on the same stream are answered in order.
+func runC20x(t *rapid.T, fanOutBias bool, slow bool) {
+	cfg := &config{stored: map[int64][]string{}, lat: map[int64]latency{}, timeout: requestTimeout}
+	if slow {
+		cfg.timeout = 150 * time.Millisecond
+		cfg.stall = time.Duration(rapid.IntRange(170, 260).Draw(t, "stallMs")) * time.Millisecond
+	}
 	cfg.nLead = rapid.IntRange(1, 3).Draw(t, "nLeaders")
 	fc, err := newFakeCase(cfg.nLead)
 	if err != nil {
@@ -893,6 +977,9 @@ func runC20(t *rapid.T, fanOutBias bool) {
 	defer fc.stop()
 
 	nShards := rapid.IntRange(1, 6).Draw(t, "nShards")
+	if slow && nShards > 2 {
+		nShards = 1 + nShards%2
+	}
 	var ranges [][2]uint32
 	if rapid.Bool().Draw(t, "equalRanges") {
 		ranges = equalRanges(uint32(nShards))
@@ -906,7 +993,10 @@ func runC20(t *rapid.T, fanOutBias bool) {
 	}
 	cfg.maxReq = rapid.IntRange(1, 8).Draw(t, "maxRequestsPerBatch")
 	cfg.chunk = rapid.IntRange(1, 4).Draw(t, "chunk")
-	if fanOutBias {
+	if slow {
+		cfg.weights = [7]int{60, 15, 5, 12, 8, 0, 0}
+		cfg.nCalls = [2]int{4, 24}
+	} else if fanOutBias {
 		cfg.weights = [7]int{10, 4, 4, 8, 25, 22, 27}
 		cfg.nCalls = [2]int{5, 30}
 	} else {
@@ -938,12 +1028,17 @@ func runC20(t *rapid.T, fanOutBias bool) {
 		calls = append(calls, c)
 		byId[c.id] = c
 	}
-	placeFailures(t, cfg, st, calls, fanOutBias)
+	if slow {
+		placeStalls(t, cfg, calls)
+	} else {
+		placeFailures(t, cfg, st, calls, fanOutBias)
+	}
 
 	// script the servers
 	fc.set(func() {
 		fc.assign = toAssignments(cfg.shards, identityOrder(len(cfg.shards)))
 		fc.chunk = cfg.chunk
+		fc.stall = cfg.stall
 		for id, l := range cfg.lat {
 			fc.lat[id] = l
 		}
@@ -973,7 +1068,7 @@ func runC20(t *rapid.T, fanOutBias bool) {
 	cl, err := oxia.NewAsyncClient(fc.bootstrap,
 		oxia.WithBatchLinger(cfg.linger),
 		oxia.WithMaxRequestsPerBatch(cfg.maxReq),
-		oxia.WithRequestTimeout(requestTimeout))
+		oxia.WithRequestTimeout(cfg.timeout))
 	if err != nil {
 		t.Skip("inconclusive: client cannot be created: " + err.Error())
 	}
@@ -999,6 +1094,10 @@ func runC20(t *rapid.T, fanOutBias bool) {
 		if !c.closed && c.panicked == nil {
 			timedOut++
 		}
+	}
+	if slow {
+		// let the server finish every held answer (and the ones queued behind it) before the verdict
+		time.Sleep(cfg.stall + 60*time.Millisecond)
 	}
 	recs, violations := fc.snapshot()
 	v := viewOf(recs)
@@ -1049,6 +1148,34 @@ func runC20(t *rapid.T, fanOutBias bool) {
 
 	// evidence
 	stats := classify(cfg, calls, v)
+	if slow {
+		timedOut, okAfter := false, false
+		for _, c := range calls {
+			if !c.isWrite() || c.invalid {
+				continue
+			}
+			onStalled := false
+			for _, sh := range c.shards {
+				onStalled = onStalled || cfg.stalled[sh]
+			}
+			if !onStalled {
+				continue
+			}
+			if timedOutBehindStall(c, cfg) {
+				timedOut = true
+			} else if timedOut && callErr(c) == nil {
+				okAfter = true
+			}
+		}
+		stats.labels = nil
+		if timedOut {
+			stats.labels = append(stats.labels, "write_timed_out_on_live_stream")
+		}
+		if okAfter {
+			stats.labels = append(stats.labels, "write_answered_after_a_timed_out_one_on_the_same_stream")
+		}
+		stats.nontrivial = timedOut && okAfter
+	}
 	evid.Case("C20", stats.nontrivial, strings.Join(hist, "; "), stats.labels...)
 }
 
@@ -1169,6 +1296,10 @@ func classify(cfg *config, calls []*call, v *serverView) c20Stats {
 	}
 	sort.Strings(s.labels)
 	return s
+}
+
+func TestC20_SlowWrites(t *testing.T) {
+	rapid.Check(t, func(t *rapid.T) { runC20x(t, false, true) })
 }
 
 func TestC20_Mixed(t *testing.T) {
